@@ -405,6 +405,7 @@ def case_pf_forward_variance(H, f32=False):
 
     def prog(m):
         m.ctx.round_u = u
+        m.ctx.havoc_rand = True        # the resampling draws are arbitrary numbers in [0, 1)
         x = torch.tensor([1.5], dtype=dt)
         xs = m.symbolic(x, 'x')
         m.ctx.assume += [xs[0] >= -bound, xs[0] <= bound]
@@ -430,11 +431,32 @@ def case_pf_forward_variance(H, f32=False):
                     worst, wx = -v, xv.item()
         return worst > 0, 'PF.forward returned a negative variance %.3g at prior mean x=%s (%s)' % (-worst, wx, str(dt))
 
+    def replay_raise(model):
+        # a resampling draw above the rounded cumulative weight sum: look for it on the real code (float32, many particles, several seeds)
+        class M2(pp.module.NLS):
+            def state_transition(self, s_, u_, t=None):
+                return s_ + u_
+
+            def observation(self, s_, u_, t=None):
+                return s_
+        pf = pp.module.PF(M2(), particles=100000)
+        z_, I_ = torch.zeros(2), torch.eye(2)
+        for seed in range(30, 60):
+            torch.manual_seed(seed)
+            try:
+                pf(z_, z_, z_, I_, 0.01 * I_, I_)
+            except IndexError as e:
+                return True, 'PF.forward raised IndexError in resample_particles (float32, 1e5 particles, seed %d): %s' % (seed, str(e)[:80])
+        return False, 'no IndexError over 30 seeds'
+
     def on_raise(ctx, e):
-        # resampling index out of range: cumsum(q)[-1] < r for a draw r in [0, 1) - excluded for the draws of this run if infeasible
+        # resampling index out of range: cumsum(q)[-1] < r for a draw r in [0, 1).  With arbitrary draws and rounded arithmetic the
+        # raising path must be infeasible
         H.absorb(ctx)
-        H.prove('%s/raising-path%d-infeasible' % (name, H.paths), H.hyps_of(ctx) + [z3.And(d <= u, d >= -u) for d in ctx.deltas], z3.BoolVal(False),
-                key='C13/PF/forward', timeout=(20 if H.quick else 60))
+        # (focused: the path condition, the ranges of x / draws / rounding variables and positivity of the exponentials suffice either way)
+        pos = [v_ > 0 for (fn_, a_, v_) in ctx.tfvar.values() if fn_ == 'exp']
+        H.prove('%s/raising-path%d-infeasible(%s)' % (name, H.paths, type(e).__name__), list(ctx.assume) + list(ctx.pc) + pos + [z3.And(d <= u, d >= -u) for d in ctx.deltas],
+                z3.BoolVal(False), key='C13/PF/resample', replay=replay_raise, timeout=(20 if H.quick else 60))
 
     for ctx, (Pv, xs) in run_paths(H, name, prog, max_paths=16, raised=on_raise, f32=f32):
         # focused: the variance term depends on x and the rounding variables only
